@@ -39,10 +39,11 @@ Definition no_throws_kw (ts : list token) : Prop := Forall (fun t => kw_is t s_t
 Definition word_tok (t : token) : bool := is_name t || is_keyword t.
 
 (* words that may precede a header: names and keywords, but none of the words the header shapes start with
-   and (Java, C#) not `new` / `record`, which make the matcher drop the header *)
+   and (Java, C#) not `new` / `record`, which make the matcher drop the header.  `async` may precede
+   (`async function f ( ) {`, C# `public async Task F ( ) {`): no header shape STARTS with it *)
 Definition prefix_word (l : language) (t : token) : bool :=
   prefix_tok t &&
-  negb (kw_is t s_function) && negb (kw_is t s_const) && negb (kw_is t s_async) &&
+  negb (kw_is t s_function) && negb (kw_is t s_const) &&
   negb (kw_is t kw_new) && negb (kw_is t kw_record).
 
 (* parameter lists of JavaScript / TypeScript: plain tokens, nested parenthesis groups and FLAT brace groups —
@@ -133,6 +134,12 @@ Inductive items_of (l : language) : nat -> list token -> list fdesc -> Prop :=
     items_of l (off + 1 + length words + length cond + 1) body ds1 ->
     items_of l (off + 1 + length words + length cond + 1 + length body + 1) r ds2 ->
     items_of l off (kw :: words ++ cond ++ o :: body ++ c :: r) (ds1 ++ ds2)
+(* a bare block `{ item* }` — an instance initialiser, a scope of its own, a block right after a function body *)
+| io_block off o body c r ds1 ds2 :
+    is_lbrace o = true -> is_rbrace c = true ->
+    items_of l (off + 1) body ds1 ->
+    items_of l (off + 1 + length body + 1) r ds2 ->
+    items_of l off (o :: body ++ c :: r) (ds1 ++ ds2)
 (* a statement with a brace initialiser: `int a [ ] = { 1 , 2 , 3 } ;`, `const o = { a : 1 } ;`, `enum E { A , B } ;` —
    no parenthesis before or inside the braces (so no header shape can begin there), an ordinary statement tail after them *)
 | io_init off pre o flat c post semi r ds :
